@@ -1,6 +1,616 @@
-//! placeholder: filled in by the check that owns this sub-command
+//! `vh seqs …` — binding of spec/Seqs.tla (C09: indexing, slicing, len) to the implementation.
+//!
+//!   vh seqs replay <dir> <quick|thorough>   replay TLC's cases (seqs_axes / seqs_at / seqs_slice
+//!                                           .ndjson written by MC_Seqs) as SimpleSL programs
+//!   vh seqs record <n> <out.ndjson>         seeded random cases beyond the enumerated bound, executed
+//!                                           and recorded for validation by Trace_Seqs.tla
+//!   vh seqs bench                            (development) programs per second
+//!
+//! Also the helpers shared with eqv.rs: rendering of specification values as source text, the
+//! content (tag-free) description of an implementation value, and running one program.
+use crate::util::{catch, read_ndjson, Rng};
 use serde_json::{Value, json};
+use simplesl::{
+    Code, Error, Interpreter,
+    variable::{ReturnType, Type, Typed, Variable},
+};
 
-pub fn run(_args: &[String]) -> Value {
-    json!({"error": "not implemented"})
+// ------------------------------------------------------------------ shared helpers
+
+pub fn k(v: &Value) -> &str {
+    v.get("k").and_then(Value::as_str).unwrap_or("?")
+}
+
+fn items<'a>(v: &'a Value, key: &str) -> &'a [Value] {
+    v.get(key).and_then(Value::as_array).map(Vec::as_slice).unwrap_or(&[])
+}
+
+/// struct fields: TLC writes a function with a string domain as a JSON object, the empty one as []
+pub fn struct_fields(v: &Value) -> Vec<(String, Value)> {
+    match v.get("fs") {
+        Some(Value::Object(m)) => m.iter().map(|(k, v)| (k.clone(), v.clone())).collect(),
+        Some(Value::Array(ps)) => ps.iter().map(|p| (p[0].as_str().unwrap().to_string(), p[1].clone())).collect(),
+        _ => vec![],
+    }
+}
+
+pub fn string_of_cps(v: &Value) -> String {
+    items(v, "cps").iter().map(|c| char::from_u32(c.as_u64().unwrap() as u32).expect("scalar value")).collect()
+}
+
+fn string_literal(s: &str) -> String {
+    let mut out = String::from("\"");
+    for ch in s.chars() {
+        match ch {
+            '"' => out.push_str("\\\""),
+            '\\' => out.push_str("\\\\"),
+            c => out.push(c),
+        }
+    }
+    out.push('"');
+    out
+}
+
+/// Source text of a specification value (a literal, or the variable that holds an identity).
+pub fn render_value(v: &Value) -> String {
+    match k(v) {
+        "bool" => v["b"].as_bool().unwrap().to_string(),
+        "int" => {
+            let n = v["v"].as_i64().unwrap();
+            if n < 0 { format!("({n})") } else { n.to_string() }
+        }
+        "float" => match v["c"].as_str().unwrap() {
+            "fin" => {
+                let h = v["h"].as_i64().unwrap();
+                let f = h as f64 / 2.0;
+                if h < 0 { format!("({f:.1})") } else { format!("{f:.1}") }
+            }
+            "nan" => "(0.0/0.0)".into(),
+            "negzero" => "(-0.0)".into(),
+            "inf" => "(1.0/0.0)".into(),
+            "neginf" => "(-1.0/0.0)".into(),
+            other => panic!("float class {other}"),
+        },
+        "string" => string_literal(&string_of_cps(v)),
+        "void" => "()".into(),
+        "array" => format!("[{}]", items(v, "es").iter().map(render_value).collect::<Vec<_>>().join(", ")),
+        "tuple" => format!("({})", items(v, "es").iter().map(render_value).collect::<Vec<_>>().join(", ")),
+        "struct" => {
+            let mut fs = struct_fields(v);
+            fs.sort_by(|a, b| a.0.cmp(&b.0));
+            format!("struct{{{}}}", fs.iter().map(|(n, x)| format!("{n} := {}", render_value(x))).collect::<Vec<_>>().join(", "))
+        }
+        "fnv" => format!("f{}", v["id"].as_i64().unwrap()),
+        "cell" => format!("c{}", v["id"].as_i64().unwrap()),
+        other => panic!("cannot render value kind {other}"),
+    }
+}
+
+/// The i64 an extended integer stands for (None: absent).
+pub fn ext_to_i64(x: &Value) -> Option<i64> {
+    match k(x) {
+        "none" => None,
+        "i" => Some(x["v"].as_i64().unwrap()),
+        "min" => Some(i64::MIN + x["d"].as_i64().unwrap()),
+        "max" => Some(i64::MAX - x["d"].as_i64().unwrap()),
+        other => panic!("extended integer kind {other}"),
+    }
+}
+
+/// Source text of an int operand. MIN_INT has no literal: -9223372036854775807-1.
+pub fn render_int(n: i64) -> String {
+    if n == i64::MIN {
+        "-9223372036854775807-1".into()
+    } else {
+        n.to_string()
+    }
+}
+
+pub fn render_ext(x: &Value) -> String {
+    ext_to_i64(x).map(render_int).unwrap_or_default()
+}
+
+/// The extended integer (as the specification writes it) of an i64, if it has one.
+pub fn i64_to_ext(n: i64) -> Option<Value> {
+    if n.unsigned_abs() < (1 << 30) {
+        Some(json!({"k": "i", "v": n}))
+    } else if n < 0 && (n.wrapping_sub(i64::MIN) as u64) < (1 << 20) {
+        Some(json!({"k": "min", "d": n.wrapping_sub(i64::MIN)}))
+    } else if n > 0 && ((i64::MAX - n) as u64) < (1 << 20) {
+        Some(json!({"k": "max", "d": i64::MAX - n}))
+    } else {
+        None
+    }
+}
+
+/// Content of an implementation value in the specification's shape: no hidden element types, no
+/// declared cell types. Cells / functions are numbered by identity in order of first appearance.
+pub fn content_of(v: &Variable, idents: &mut Vec<usize>) -> Value {
+    fn ident(p: usize, idents: &mut Vec<usize>) -> usize {
+        if let Some(i) = idents.iter().position(|x| *x == p) {
+            i
+        } else {
+            idents.push(p);
+            idents.len() - 1
+        }
+    }
+    match v {
+        Variable::Bool(b) => json!({"k": "bool", "b": b}),
+        Variable::Int(n) => json!({"k": "int", "v": n}),
+        Variable::Float(f) => {
+            let h = f * 2.0;
+            if f.is_nan() {
+                json!({"k": "float", "c": "nan", "h": 0})
+            } else if *f == 0.0 && f.is_sign_negative() {
+                json!({"k": "float", "c": "negzero", "h": 0})
+            } else if *f == f64::INFINITY {
+                json!({"k": "float", "c": "inf", "h": 0})
+            } else if *f == f64::NEG_INFINITY {
+                json!({"k": "float", "c": "neginf", "h": 0})
+            } else if h.fract() == 0.0 && h.abs() < 1e9 {
+                json!({"k": "float", "c": "fin", "h": h as i64})
+            } else {
+                json!({"k": "float", "c": "other", "bits": f.to_bits().to_string()})
+            }
+        }
+        Variable::String(s) => json!({"k": "string", "cps": s.chars().map(|c| c as u32).collect::<Vec<_>>()}),
+        Variable::Void => json!({"k": "void"}),
+        Variable::Array(a) => json!({"k": "array", "es": a.iter().map(|e| content_of(e, idents)).collect::<Vec<_>>()}),
+        Variable::Tuple(es) => json!({"k": "tuple", "es": es.iter().map(|e| content_of(e, idents)).collect::<Vec<_>>()}),
+        Variable::Struct(vm) => {
+            let mut m = serde_json::Map::new();
+            for (n, x) in vm.iter() {
+                m.insert(n.to_string(), content_of(x, idents));
+            }
+            json!({"k": "struct", "fs": m})
+        }
+        Variable::Mut(c) => json!({"k": "cell", "id": ident(std::sync::Arc::as_ptr(c) as usize, idents)}),
+        Variable::Function(f) => json!({"k": "fnv", "id": ident(std::sync::Arc::as_ptr(f) as usize, idents)}),
+    }
+}
+
+pub enum Ran {
+    Val { v: Variable, st: Option<Type> },
+    Err { kind: String, stage: &'static str },
+    Panic(String),
+}
+
+fn variant_name(debug: String) -> String {
+    debug.split(|c: char| !(c.is_alphanumeric() || c == '_')).next().unwrap_or("").to_string()
+}
+
+/// Parse (checks + folds) and execute one program; every call into the code under test is caught.
+pub fn run_text(interp: &Interpreter, text: &str) -> Ran {
+    let code = match catch(|| Code::parse(interp, text)) {
+        Err(p) => return Ran::Panic(format!("parse: {p}")),
+        Ok(Err(e)) => {
+            let kind = if matches!(e, Error::IndexOutOfBounds) { "IndexOutOfBounds".to_string() } else { variant_name(format!("{e:?}")) };
+            return Ran::Err { kind, stage: "parse" };
+        }
+        Ok(Ok(c)) => c,
+    };
+    let st = catch(|| code.return_type()).ok();
+    match catch(|| code.exec()) {
+        Err(p) => Ran::Panic(format!("exec: {p}")),
+        Ok(Err(e)) => Ran::Err { kind: variant_name(format!("{e:?}")), stage: "exec" },
+        Ok(Ok(v)) => Ran::Val { v, st },
+    }
+}
+
+/// The outcome in the specification's shape ({"k":"ok","v":…} | {"k":"err","e":…}), or a panic.
+pub fn outcome_json(r: &Ran) -> Value {
+    match r {
+        Ran::Val { v, .. } => json!({"k": "ok", "v": content_of(v, &mut vec![])}),
+        Ran::Err { kind, .. } => json!({"k": "err", "e": kind}),
+        Ran::Panic(msg) => json!({"k": "panic", "msg": msg}),
+    }
+}
+
+/// Does the value inhabit the static type the checker gave the program (by run-time tag)?
+fn static_ok(r: &Ran) -> Option<(bool, String, String)> {
+    if let Ran::Val { v, st: Some(st) } = r {
+        let tag = v.as_type();
+        Some((tag.matches(st), tag.to_string(), st.to_string()))
+    } else {
+        None
+    }
+}
+
+// ------------------------------------------------------------------ rendering of the cases
+
+fn param_type(s: &Value, mode: &str) -> &'static str {
+    if mode == "fnu" {
+        "[any]|string"
+    } else if k(s) == "string" {
+        "string"
+    } else {
+        "[any]"
+    }
+}
+
+pub fn at_program(s: &Value, i: &Value, mode: &str) -> String {
+    let (st, it) = (render_value(s), render_ext(i));
+    match mode {
+        "lit" => format!("{st}[{it}]"),
+        "var" => format!("s := {st}; i := {it}; s[i]"),
+        "fn" | "fnu" => format!("f := (s: {}, i: int) -> any {{ return s[i]; }}; f({st}, {it})", param_type(s, mode)),
+        other => panic!("mode {other}"),
+    }
+}
+
+pub fn len_program(s: &Value, mode: &str) -> String {
+    let st = render_value(s);
+    match mode {
+        "lit" => format!("std.len({st})"),
+        "var" => format!("s := {st}; std.len(s)"),
+        "fn" | "fnu" => format!("g := (s: {}) -> int {{ return std.len(s); }}; g({st})", param_type(s, mode)),
+        other => panic!("mode {other}"),
+    }
+}
+
+/// `[a:b:c]` with the given operand texts; an absent step is written `[a:b]` or `[a:b:]`.
+fn brackets(a: &str, b: &str, c: &str, trailing_colon: bool) -> String {
+    if c.is_empty() && !trailing_colon { format!("[{a}:{b}]") } else { format!("[{a}:{b}:{c}]") }
+}
+
+pub fn slice_program(s: &Value, a: &Value, b: &Value, c: &Value, mode: &str, trailing_colon: bool) -> String {
+    let st = render_value(s);
+    let (at, bt, ct) = (render_ext(a), render_ext(b), render_ext(c));
+    match mode {
+        "lit" => {
+            let e = format!("{st}{}", brackets(&at, &bt, &ct, trailing_colon));
+            format!("({e}, std.len({e}))")
+        }
+        "var" | "fn" | "fnu" => {
+            let names = [("a", &at), ("b", &bt), ("c", &ct)];
+            let name = |i: usize| if names[i].1.is_empty() { "" } else { names[i].0 };
+            let br = brackets(name(0), name(1), name(2), trailing_colon);
+            let present: Vec<&(&str, &String)> = names.iter().filter(|(_, t)| !t.is_empty()).collect();
+            if mode == "var" {
+                let decls: String = present.iter().map(|(n, t)| format!("{n} := {t}; ")).collect();
+                format!("s := {st}; {decls}r := s{br}; (r, std.len(r))")
+            } else {
+                let params: String = present.iter().map(|(n, _)| format!(", {n}: int")).collect();
+                let args: String = present.iter().map(|(_, t)| format!(", {t}")).collect();
+                format!("f := (s: {}{params}) -> any {{ r := s{br}; return (r, std.len(r)); }}; f({st}{args})", param_type(s, mode))
+            }
+        }
+        other => panic!("mode {other}"),
+    }
+}
+
+fn is_min(x: &Value) -> bool {
+    k(x) == "min" && x["d"].as_i64() == Some(0)
+}
+
+// ------------------------------------------------------------------ replay
+
+/// Mismatches collected by one worker thread; merged at the end (full counts, capped items).
+#[derive(Default)]
+pub struct Bag {
+    pub counts: std::collections::BTreeMap<String, u64>,
+    pub items: Vec<Value>,
+}
+
+impl Bag {
+    pub fn push(&mut self, kind: &str, mut detail: Value) {
+        let c = self.counts.entry(kind.to_string()).or_insert(0);
+        *c += 1;
+        if *c <= 12 {
+            detail["kind"] = json!(kind);
+            self.items.push(detail);
+        }
+    }
+    pub fn merge(&mut self, other: Bag) {
+        for (k, v) in other.counts {
+            *self.counts.entry(k).or_insert(0) += v;
+        }
+        self.items.extend(other.items);
+    }
+    pub fn counts_json(&self) -> Value {
+        json!(self.counts)
+    }
+    /// at most `cap` items, round-robin over the kinds so that no kind starves another
+    pub fn items_json(&self, cap: usize) -> Value {
+        let mut by_kind: std::collections::BTreeMap<String, Vec<&Value>> = Default::default();
+        for it in &self.items {
+            by_kind.entry(it["kind"].as_str().unwrap_or("?").to_string()).or_default().push(it);
+        }
+        let mut out = vec![];
+        let mut i = 0;
+        while out.len() < cap {
+            let mut any = false;
+            for v in by_kind.values() {
+                if let Some(x) = v.get(i) {
+                    if out.len() < cap {
+                        out.push((*x).clone());
+                    }
+                    any = true;
+                }
+            }
+            if !any {
+                break;
+            }
+            i += 1;
+        }
+        Value::Array(out)
+    }
+}
+
+pub fn threads() -> usize {
+    std::env::var("VERIF_THREADS").ok().and_then(|s| s.parse().ok()).unwrap_or(4).max(1)
+}
+
+/// Run `work(worker index, number of workers)` on `threads()` big-stack threads.
+pub fn parallel<T: Send>(work: impl Fn(usize, usize) -> T + Sync) -> Vec<T> {
+    let n = threads();
+    std::thread::scope(|sc| {
+        let hs: Vec<_> = (0..n)
+            .map(|w| {
+                let work = &work;
+                std::thread::Builder::new().stack_size(256 << 20).spawn_scoped(sc, move || work(w, n)).unwrap()
+            })
+            .collect();
+        hs.into_iter().map(|h| h.join().expect("worker thread panicked")).collect()
+    })
+}
+
+#[derive(Default)]
+struct Ctx {
+    mm: Bag,
+    evals: u64,
+    known_min_panic: u64,
+    known_examples: Vec<Value>,
+    static_checks: u64,
+    samples: Vec<Value>,
+    at_cases: u64,
+    len_cases: u64,
+    at_ok: u64,
+    at_err: u64,
+    slice_cases: u64,
+    slice_runs: u64,
+    nonempty: u64,
+    distinct: std::collections::HashSet<String>,
+}
+
+impl Ctx {
+    fn check_static(&mut self, r: &Ran, what: &str, program: &str) {
+        if let Some((ok, tag, st)) = static_ok(r) {
+            self.static_checks += 1;
+            if !ok {
+                self.mm.push("static", json!({"what": what, "program": program, "value_tag": tag, "static": st}));
+            }
+        }
+    }
+}
+
+fn replay(dir: &str, tier: &str) -> Value {
+    let axes = &read_ndjson(&format!("{dir}/seqs_axes.ndjson"))[0];
+    let idx = items(axes, "idx").to_vec();
+    let bounds = items(axes, "bounds").to_vec();
+    let steps = items(axes, "steps").to_vec();
+    let thorough = tier == "thorough";
+    let at_modes: &[&str] = if thorough { &["lit", "var", "fn", "fnu"] } else { &["lit", "fn", "fnu"] };
+    let at_rows = read_ndjson(&format!("{dir}/seqs_at.ndjson"));
+    let slice_rows = read_ndjson(&format!("{dir}/seqs_slice.ndjson"));
+    let parts = parallel(|w, nw| {
+        let interp = Interpreter::with_stdlib();
+        let mut cx = Ctx::default();
+        // ---- indexing and len
+        for (ri, row) in at_rows.iter().enumerate() {
+            if ri % nw != w {
+                continue;
+            }
+            let s = &row["s"];
+            let want_len = json!({"k": "ok", "v": {"k": "int", "v": row["len"]}});
+            for mode in at_modes {
+                let program = len_program(s, mode);
+                let r = run_text(&interp, &program);
+                cx.evals += 1;
+                cx.len_cases += 1;
+                let got = outcome_json(&r);
+                if got != want_len {
+                    cx.mm.push("len", json!({"mode": mode, "s": s, "program": program, "expected": want_len, "observed": got}));
+                }
+            }
+            for (j, want) in items(row, "at").iter().enumerate() {
+                if k(want) == "ok" { cx.at_ok += 1 } else { cx.at_err += 1 }
+                for mode in at_modes {
+                    let program = at_program(s, &idx[j], mode);
+                    let r = run_text(&interp, &program);
+                    cx.evals += 1;
+                    cx.at_cases += 1;
+                    let got = outcome_json(&r);
+                    if &got != want {
+                        cx.mm.push("at", json!({"mode": mode, "s": s, "i": idx[j], "program": program,
+                            "expected": want, "observed": got}));
+                    }
+                    cx.check_static(&r, "at", &program);
+                    if ri == at_rows.len() / 2 && (j == 5 || j == 9) && *mode == "fn" {
+                        cx.samples.push(json!({"program": program, "spec": want, "impl": got}));
+                    }
+                }
+            }
+        }
+        // ---- slicing
+        for (ri, row) in slice_rows.iter().enumerate() {
+            if ri % nw != w {
+                continue;
+            }
+            let s = &row["s"];
+            let a = &bounds[row["a"].as_u64().unwrap() as usize - 1];
+            for (bi, b) in bounds.iter().enumerate() {
+                for (ci, c) in steps.iter().enumerate() {
+                    let want_r = &row["r"][bi][ci];
+                    let want_n = &row["n"][bi][ci];
+                    let want = json!({"k": "ok", "v": {"k": "tuple", "es": [want_r, {"k": "int", "v": want_n}]}});
+                    cx.slice_cases += 1;
+                    if want_n.as_i64() != Some(0) {
+                        cx.nonempty += 1;
+                    }
+                    cx.distinct.insert(format!("{s}{want_r}"));
+                    let parity = (ri + bi + ci) % 2 == 0;
+                    let modes: Vec<&str> = if thorough {
+                        vec!["lit", "var", "fn", "fnu"]
+                    } else {
+                        vec!["lit", if parity { "fn" } else { "fnu" }]
+                    };
+                    for mode in modes {
+                        let program = slice_program(s, a, b, c, mode, parity);
+                        let r = run_text(&interp, &program);
+                        cx.evals += 1;
+                        cx.slice_runs += 1;
+                        let got = outcome_json(&r);
+                        if got != want {
+                            let detail = json!({"mode": mode, "s": s, "start": a, "stop": b, "step": c,
+                                "program": program, "expected": want, "observed": got});
+                            if k(&got) == "panic" && (is_min(a) || is_min(b)) {
+                                cx.known_min_panic += 1;
+                                if cx.known_examples.len() < 2 {
+                                    cx.known_examples.push(detail);
+                                }
+                            } else {
+                                cx.mm.push("slice", detail);
+                            }
+                        }
+                        cx.check_static(&r, "slice", &program);
+                        if ri == slice_rows.len() / 3 && bi == 9 && ci == 6 {
+                            cx.samples.push(json!({"program": program, "spec": want, "impl": got}));
+                        }
+                    }
+                }
+            }
+        }
+        cx
+    });
+    let mut t = Ctx::default();
+    for p in parts {
+        t.mm.merge(p.mm);
+        t.evals += p.evals;
+        t.known_min_panic += p.known_min_panic;
+        t.known_examples.extend(p.known_examples);
+        t.static_checks += p.static_checks;
+        t.samples.extend(p.samples);
+        t.at_cases += p.at_cases;
+        t.len_cases += p.len_cases;
+        t.at_ok += p.at_ok;
+        t.at_err += p.at_err;
+        t.slice_cases += p.slice_cases;
+        t.slice_runs += p.slice_runs;
+        t.nonempty += p.nonempty;
+        t.distinct.extend(p.distinct);
+    }
+    json!({
+        "at_sequences": at_rows.len(), "at_cases": t.at_cases, "at_in_range": t.at_ok, "at_out_of_range": t.at_err,
+        "len_cases": t.len_cases, "slice_sequences_x_starts": slice_rows.len(), "slice_cases": t.slice_cases,
+        "slice_runs": t.slice_runs, "slice_nonempty": t.nonempty, "slice_distinct_results": t.distinct.len(),
+        "static_checks": t.static_checks, "evaluations": t.evals,
+        "min_int_bound_panics": t.known_min_panic, "min_int_bound_examples": t.known_examples,
+        "mismatch_counts": t.mm.counts_json(), "mismatches": t.mm.items_json(60), "samples": t.samples,
+    })
+}
+
+// ------------------------------------------------------------------ record (impl -> spec)
+
+const POOL: &[char] = &['a', 'Z', '0', ' ', '\u{e9}', '\u{df}', '\u{3a9}', '\u{301}', '\u{200d}', '\u{20ac}', '\u{4e2d}',
+    '\u{d7ff}', '\u{e000}', '\u{fffd}', '\u{1f600}', '\u{10ffff}', '\u{10000}', '\u{7f}', '\u{80}', '\u{7ff}', '\u{800}', '\u{ffff}'];
+
+fn random_seq(rng: &mut Rng, max_len: usize) -> Value {
+    let n = rng.below(max_len + 1);
+    if rng.chance(1, 2) {
+        json!({"k": "string", "cps": (0..n).map(|_| *rng.pick(POOL) as u32).collect::<Vec<_>>()})
+    } else {
+        let es: Vec<Value> = (0..n)
+            .map(|i| match rng.below(5) {
+                0 => json!({"k": "float", "c": "fin", "h": (rng.below(41) as i64) - 20}),
+                1 => json!({"k": "string", "cps": [*rng.pick(POOL) as u32]}),
+                2 => json!({"k": "bool", "b": rng.chance(1, 2)}),
+                3 => json!({"k": "array", "es": [{"k": "int", "v": i}]}),
+                _ => json!({"k": "int", "v": (rng.below(2001) as i64) - 1000}),
+            })
+            .collect();
+        json!({"k": "array", "es": es})
+    }
+}
+
+fn random_int(rng: &mut Rng, n: usize) -> i64 {
+    let span = (2 * n + 7) as i64;
+    match rng.below(12) {
+        0 => i64::MIN + rng.below(3) as i64,
+        1 => i64::MAX - rng.below(3) as i64,
+        2 => (rng.below(2_000_001) as i64) - 1_000_000,
+        3 => (1 << 29) + rng.below(1000) as i64,
+        4 => -(1 << 29) - rng.below(1000) as i64,
+        _ => (rng.below(span as usize) as i64) - span / 2,
+    }
+}
+
+fn random_ext(rng: &mut Rng, n: usize, absent: bool) -> Value {
+    if absent && rng.chance(1, 5) {
+        return json!({"k": "none"});
+    }
+    i64_to_ext(random_int(rng, n)).unwrap()
+}
+
+fn record(n_cases: usize, path: &str) -> Value {
+    use std::io::Write;
+    let mut rng = Rng::from_env(0x5e95);
+    let interp = Interpreter::with_stdlib();
+    let mut f = std::io::BufWriter::new(std::fs::File::create(path).expect("create trace file"));
+    let (mut ats, mut slices, mut lens) = (0u64, 0u64, 0u64);
+    for i in 0..n_cases {
+        let s = random_seq(&mut rng, 12);
+        let n = items(&s, if k(&s) == "string" { "cps" } else { "es" }).len();
+        let mode = *rng.pick(&["lit", "var", "fn", "fnu"]);
+        let rec = match rng.below(8) {
+            0 => {
+                lens += 1;
+                let program = len_program(&s, mode);
+                let got = outcome_json(&run_text(&interp, &program));
+                json!({"op": "len", "s": s, "mode": mode, "program": program, "got": got})
+            }
+            1 | 2 | 3 => {
+                ats += 1;
+                let x = random_ext(&mut rng, n, false);
+                let program = at_program(&s, &x, mode);
+                let got = outcome_json(&run_text(&interp, &program));
+                json!({"op": "at", "s": s, "i": x, "mode": mode, "program": program, "got": got})
+            }
+            _ => {
+                slices += 1;
+                let (a, b, c) = (random_ext(&mut rng, n, true), random_ext(&mut rng, n, true), random_ext(&mut rng, n, true));
+                let program = slice_program(&s, &a, &b, &c, mode, i % 2 == 0);
+                let got = outcome_json(&run_text(&interp, &program));
+                json!({"op": "slice", "s": s, "a": a, "b": b, "c": c, "mode": mode, "program": program, "got": got})
+            }
+        };
+        writeln!(f, "{}", serde_json::to_string(&rec).unwrap()).unwrap();
+    }
+    f.flush().unwrap();
+    json!({"recorded": n_cases, "at": ats, "slice": slices, "len": lens, "path": path})
+}
+
+fn bench() -> Value {
+    let interp = Interpreter::with_stdlib();
+    let s = json!({"k": "array", "es": [{"k": "int", "v": 1}, {"k": "float", "c": "fin", "h": 5}]});
+    let (a, b, c) = (json!({"k": "i", "v": -1}), json!({"k": "none"}), json!({"k": "i", "v": 2}));
+    let mut out = serde_json::Map::new();
+    for mode in ["lit", "var", "fn", "fnu"] {
+        let program = slice_program(&s, &a, &b, &c, mode, false);
+        let t = std::time::Instant::now();
+        for _ in 0..20000 {
+            let _ = run_text(&interp, &program);
+        }
+        out.insert(mode.into(), json!({"program": program, "per_s": (20000.0 / t.elapsed().as_secs_f64()) as u64}));
+    }
+    Value::Object(out)
+}
+
+pub fn run(args: &[String]) -> Value {
+    match args.first().map(String::as_str) {
+        Some("replay") => replay(&args[1], args.get(2).map(String::as_str).unwrap_or("quick")),
+        Some("record") => record(args[1].parse().expect("count"), &args[2]),
+        Some("bench") => bench(),
+        _ => json!({"error": "usage: vh seqs replay <dir> <tier> | record <n> <out> | bench"}),
+    }
 }
